@@ -100,8 +100,9 @@ func (p *probe) first() []error {
 // gaugeMap builds a flush map of n gauges named <prefix>_g<i><pad>.
 func gaugeMap(prefix string, n int, pad string) *gostatsd.MetricMap {
 	mm := gostatsd.NewMetricMap(false)
+	ts := gostatsd.Nanotime(time.Now().UnixNano()) // input data only (keeps the gauges from expiring in the flusher-level runs)
 	for i := 0; i < n; i++ {
-		mm.Receive(&gostatsd.Metric{Name: fmt.Sprintf("%s_g%d%s", prefix, i, pad), Type: gostatsd.GAUGE, Value: float64(i + 1), Rate: 1, Timestamp: 1})
+		mm.Receive(&gostatsd.Metric{Name: fmt.Sprintf("%s_g%d%s", prefix, i, pad), Type: gostatsd.GAUGE, Value: float64(i + 1), Rate: 1, Timestamp: ts})
 	}
 	return mm
 }
